@@ -188,8 +188,6 @@ pub fn int_to_string(i: i64) -> String {
     i.to_string()
 }
 
-/// `%a`-less hex-float body used by nothing but kept small: `%a` is not supported.
-
 fn is_lua_space(b: u8) -> bool {
     matches!(b, b' ' | b'\t' | b'\n' | b'\r' | 0x0b | 0x0c)
 }
